@@ -42,7 +42,7 @@ FAMILY = {
     "C06": dict(mc="MC_Dry", gen="MC_GenDry", quick=200, thorough=2000, drivers=["secret", "memory", "configmap"], cli=2,
                 enum=["MC_EnumDry.cfg"], extra_gen=["MC_GenDryCrash.cfg", "MC_GenDryOdd.cfg"], gen_split=True),
     "C07": dict(mc="MC_Own", gen="MC_GenOwn", quick=260, thorough=2000, drivers=["secret", "memory", "configmap"],
-                enum=["MC_EnumOwn.cfg"], enum_thorough=["MC_EnumOwn3.cfg"]),
+                enum=["MC_EnumOwn.cfg", "MC_EnumOwnHook.cfg"], enum_thorough=["MC_EnumOwn3.cfg"]),
     "C09": dict(mc="MC_Conc", gen="MC_GenConc", quick=480, thorough=4000, drivers=["secret", "memory", "configmap"], gen_split=True,
                 extra_mc=["MC_ConcDep.cfg", "MC_ConcLim.cfg"], extra_mc_thorough=["MC_ConcFault.cfg"],
                 extra_gen=["MC_GenConcDep.cfg", "MC_GenConc3.cfg", "MC_GenConcFault.cfg", "MC_GenConcLate.cfg"]),
